@@ -286,7 +286,8 @@ class Ctx:
 
     # ---- CBMC
     def cbmc(self, cfile, entry, unwind, stubs=('cxxrt.c', 'vp_cbmc.c'), unwindset=None, timeout=600, extra=(),
-             memlimit_gb=24, backend=None, trace=True, object_bits=None):
+             memlimit_gb=24, backend=None, trace=True, object_bits=None, harness_unwind=None,
+             harness_loop_rx=r'^_ZL|__bodyv|S_map|U_src|P_sym|reslog'):
         cmd = ['cbmc', cfile] + [os.path.join(STUBS, s) for s in stubs] + ['-I', ENGINE, '--function', entry,
                '--unwind', str(unwind), '--unwinding-assertions', '--no-malloc-may-fail',
                '--no-signed-overflow-check', '--no-undefined-shift-check', '--no-div-by-zero-check',
@@ -294,8 +295,16 @@ class Ctx:
                '--drop-unused-functions', '--slice-formula', '--max-field-sensitivity-array-size', '2048', '--json-ui']
         if trace:
             cmd.append('--trace')
-        us = {'vp_memset.0': 130, 'vp_memcpy.0': 130, 'vp_memmove.0': 130, 'vp_memmove.1': 130, 'vp_dup.0': 66,
-              'vp_strlen.0': 66, 'vp_libc_memcmp.0': 66, 'vp_libc_memchr.0': 66}
+        us = {}
+        if harness_unwind:
+            # harness-side loops (static functions of the harness TU, protocol stubs) get their own bound
+            rc0, out0, err0, _, _ = sh(['cbmc', cfile] + [os.path.join(STUBS, s) for s in stubs] + ['-I', ENGINE, '--function', entry,
+                                       '--drop-unused-functions', '--show-loops'], timeout=300)
+            for m in re.finditer(r'^Loop (\S+):', out0, re.M):
+                if re.search(harness_loop_rx, m.group(1)):
+                    us[m.group(1)] = harness_unwind
+        us.update({'vp_memset.0': 130, 'vp_memcpy.0': 130, 'vp_memmove.0': 130, 'vp_memmove.1': 130, 'vp_dup.0': 66,
+              'vp_strlen.0': 66, 'vp_libc_memcmp.0': 66, 'vp_libc_memchr.0': 66})
         us.update(unwindset or {})
         cmd += ['--unwindset', ','.join('%s:%d' % kv for kv in us.items())]
         if object_bits:
@@ -590,7 +599,7 @@ class Module:
 
 
 def run_entry(ctx, mod, entry, unwind, timeout=600, backend=None, unwindset=None, object_bits=12, note='',
-              bounds=None, tv_seeds=3, expect_fail=None, memlimit_gb=24, extra=()):
+              bounds=None, tv_seeds=3, expect_fail=None, memlimit_gb=24, extra=(), harness_unwind=None):
     """check one harness entry; fills ctx.obligations etc.  Returns verdict string."""
     ob = dict(harness=entry, module=mod.name, unwind=unwind, backend=backend or 'cbmc-default-sat', bounds=bounds or note)
     try:
@@ -602,7 +611,7 @@ def run_entry(ctx, mod, entry, unwind, timeout=600, backend=None, unwindset=None
         log('INCONCLUSIVE property=%s harness=%s %s' % (ctx.prop, entry, ob['reason'][:300]))
         return 'inconclusive'
     res = ctx.cbmc(cfile, entry, unwind, stubs=mod.stubs, unwindset=unwindset, timeout=timeout, backend=backend,
-                   object_bits=object_bits, memlimit_gb=memlimit_gb, extra=extra)
+                   object_bits=object_bits, memlimit_gb=memlimit_gb, extra=extra, harness_unwind=harness_unwind)
     ob.update(seconds=res['wall'], rss_mb=res['rss_mb'])
     def inconc(reason):
         ob.update(verdict='inconclusive', reason=reason[:600])
